@@ -776,18 +776,12 @@ func c19Support(c *Ctx) {
 			c.Anchor("O19.7", g.rel+"."+g.name)
 			continue
 		}
-		var call *ssa.Call
-		EachInstr(fn, func(in ssa.Instruction) {
-			if cl, ok := in.(*ssa.Call); ok {
-				if f := CalleeObj(&cl.Call); f != nil && f.Name() == g.call {
-					call = cl
-				}
-			}
-		})
+		holder, call := findCallIn(fn, g.call)
 		if call == nil {
 			c.Anchor("O19.7", g.call+" in "+fk(fn))
 			continue
 		}
+		fn = holder
 		iv := PathQuery{Fn: fn, Start: call, Weight: func(in ssa.Instruction) (int, int) {
 			if _, isP := in.(*ssa.Panic); isP && !IsSelectPanicBlock(in.Block()) {
 				return 1, 1
